@@ -366,31 +366,57 @@ def perform(e, cur):
     return obs
 
 
-def sweep_events(done, cur):
-    '''closing sweep: reopen, then read back every identity the schedule wrote (for each run it used and one
-    beyond), then ask for the next run id.  Inputs only; what they return is judged by TLC like any other step.'''
-    evs = [{'ev': 'Reopen'}]
+def _thin(items, cap):
+    if len(items) <= cap:
+        return items
+    step = len(items) / float(cap)
+    return [items[int(k * step)] for k in range(cap)]
+
+
+def sweep_events(done, cur, known):
+    '''closing sweep.  Inputs only; what they return is judged by TLC like any other step.
+      1. for every identity the history stored, a load for every OTHER known target (nothing was stored there
+         under that identity unless the history did so itself: the reference says what must come back)
+      2. close + reopen
+      3. every stored identity read back on its own target (for each run the history used and one beyond),
+         and the loads of 1. again
+      4. the next run id'''
     idents = []
     runs = set()
+    last = {}
     for a in done:
         if a['ev'] == 'Update':
             key = (a['tgt'], a['task'], a['a'], a['s'], a['v'], a['av'], a['sv'], a['vv'])
             if key not in idents:
                 idents.append(key)
             runs.add(a['run'])
+            last[key] = a['run']
     runs = sorted(runs) + [max(runs) + 1] if runs else []
-    loads = [(i, r) for i in idents for r in runs]
-    cap = 12 if len(done) > 6 else 6
-    if len(loads) > cap:
-        step = len(loads) / float(cap)
-        loads = [loads[int(k * step)] for k in range(cap)]
+    long = len(done) > 6
+    own = _thin([(i, r) for i in idents for r in runs], 12 if long else 6)
+    seen = set()
+    cross = []
+    for i in idents:
+        for t in known:
+            k = (t,) + i[1:]
+            if t != i[0] and k not in idents and k not in seen:
+                seen.add(k)
+                cross.append((k, last[i]))
+    cross = _thin(cross, 6 if long else 3)
+    evs = []
     now = dict(cur)
-    for (tgt, task, a, s, v, av, sv, vv), r in loads:
-        for lvl, want in (('alg', av), ('sv', sv), ('val', vv)):
-            if now[lvl] != want:
-                evs.append({'ev': 'Bump', 'lvl': lvl, 'to': want})
-                now[lvl] = want
-        evs.append({'ev': 'Load', 'tgt': tgt, 'task': task, 'a': a, 's': s, 'v': v, 'run': r})
+
+    def loads(items):
+        for (tgt, task, a, s, v, av, sv, vv), r in sorted(items, key=lambda x: x[0][5:]):
+            for lvl, want in (('alg', av), ('sv', sv), ('val', vv)):
+                if now[lvl] != want:
+                    evs.append({'ev': 'Bump', 'lvl': lvl, 'to': want})
+                    now[lvl] = want
+            evs.append({'ev': 'Load', 'tgt': tgt, 'task': task, 'a': a, 's': s, 'v': v, 'run': r})
+
+    loads(cross)
+    evs.append({'ev': 'Reopen'})
+    loads(own + cross)
     evs.append({'ev': 'Next'})
     return evs
 
@@ -442,7 +468,11 @@ def run_job(job, base):
             e = dict(e, run=runmap[int(e['run'])])
         play(e)
     if job.get('sweep', True):
-        for e in sweep_events(done, cur):
+        known = [t for t in env.get('targets', []) if not re.match(r'^G\d\d$', t)]
+        for a in done:
+            if a['tgt'] and a['tgt'] not in known:
+                known.append(a['tgt'])
+        for e in sweep_events(done, cur, known):
             play(e)
     DBI().close()
     shutil.rmtree(d, True)
